@@ -488,7 +488,24 @@ func (fc *FnCtx) execSelect(st *State, x *ast.SelectStmt) []Outcome {
 		panic(unsupported("blocking select"))
 	}
 	nd := Var(fc.e.fresher.name("select.nd"), SBool)
-	return fc.branch(st, nd, func(s *State) []Outcome { return fc.execBlock(s, other.Body) },
+	var ctxErr *Term
+	if es, ok := other.Comm.(*ast.ExprStmt); ok {
+		if ue, ok := es.X.(*ast.UnaryExpr); ok && ue.Op == token.ARROW {
+			if call, ok := ue.X.(*ast.CallExpr); ok {
+				if sel, ok := call.Fun.(*ast.SelectorExpr); ok && sel.Sel.Name == "Done" {
+					if iv, ok := fc.ec(st).eval(sel.X).(*IfaceV); ok {
+						ctxErr = App("ctx.Err", SInt, iv.Id)
+					}
+				}
+			}
+		}
+	}
+	return fc.branch(st, nd, func(s *State) []Outcome {
+		if ctxErr != nil {
+			s.Assume(Not(Eq(ctxErr, Int(0)))) // Done() is closed: Err() is non-nil
+		}
+		return fc.execBlock(s, other.Body)
+	},
 		func(s *State) []Outcome { return fc.execBlock(s, def.Body) })
 }
 
@@ -586,6 +603,9 @@ func (fc *FnCtx) assignedIn(nodes ...ast.Node) []modTarget {
 								if _, isPtr := sig.Recv().Type().(*types.Pointer); isPtr {
 									o, f := rootOf(sel.X)
 									if o != nil {
+										if _, isStd := stdModels[fn.Origin().FullName()]; isStd && !mutatesReceiver(fn.Origin().FullName()) {
+											return true
+										}
 										if c := fc.e.contractForFunc(fn); c != nil && !c.Inline {
 											// contract's modifies decides; handled below
 											for _, m := range c.Modifies {
@@ -632,6 +652,12 @@ func (fc *FnCtx) assignedIn(nodes ...ast.Node) []modTarget {
 		})
 	}
 	return out
+}
+
+// mutatesReceiver: library models whose effect is on the receiver object itself
+// (in-memory buffers); all other modelled methods act on ghost state only.
+func mutatesReceiver(full string) bool {
+	return strings.HasPrefix(full, "(*strings.Builder).") || strings.HasPrefix(full, "(*bytes.Buffer).")
 }
 
 func modRootField(m ast.Expr) (string, string) {
@@ -721,16 +747,20 @@ func (fc *FnCtx) havocGhosts(st *State, nodes ...ast.Node) {
 	}
 	ec := fc.ec(st)
 	st.ghost[failedKey] = Var(fc.e.fresher.name("failedDuring"), SBool)
+	fc.e.fresher.n++
+	st.ghost["$epoch"] = Int(int64(fc.e.fresher.n))
+	for k := range st.ghost {
+		if strings.HasPrefix(k, "out:") || strings.HasPrefix(k, "in:") || strings.HasPrefix(k, "tr:") {
+			delete(st.ghost, k) // re-materialised lazily in the new epoch
+		}
+	}
 	for _, v := range st.vars {
 		switch w := v.(type) {
 		case *IfaceV:
 			if _, isBuf := ec.bufferObject(w); isBuf {
 				continue
 			}
-			st.ghost["out:"+writerKey(ec, w)] = Var(fc.e.fresher.name("out"), SStr)
-			if _, has := st.ghost["tr:"+writerKey(ec, w)]; has {
-				ec.havocGhost(&ast.CallExpr{Fun: ast.NewIdent("tr"), Args: []ast.Expr{&valueExpr{v: w}}})
-			}
+			_ = w
 		}
 	}
 }
